@@ -1023,7 +1023,7 @@ def make_data_dict_vcf(vcf_filename, popinfo_filename, subsample=None, filter=Tr
                 calls_dict[pop] = (refcalls, altcalls)
                 
                 # === New Feature Addition ===
-                if calc_coverage:
+                if calc_coverage and covindex is not None:
                     coverages = coverage_dict[pop]
                     
                     coverage = sample.split(':')[covindex].split(',')
